@@ -445,9 +445,10 @@ class Ref:
         self.hazard.clear()
         for id_ in range(2, len(self.attrs)):
             if how == "xml":
+                # since /repo 16e3604 the export refreshes every attribute first (hwloc__xml_export_memattrs):
+                # targets entered by os_index get their gp_index, stale entries and out-of-root cpusets are dropped
+                self.touch(id_)
                 self.alloc[id_] = self.cnt.get(id_, 0) > 0
-                # exported with gp_index (uint64)-1: cannot be resolved by the importing topology
-                self.ent[id_] = [tg for tg in self.ent[id_] if not tg.pending]
             else:
                 self.valid[id_] = False
             self._filter_attr(id_, topo, self.stats)
